@@ -82,6 +82,9 @@ type Explorer struct {
 	PinChoice []int
 	Trace     bool
 
+	CrossEvery                                         int // cross-check every n-th incremental unsat (0 = off)
+	crossCtr, crossAgreed, crossDisagreed, crossUndecided int64
+
 	ifConverted int64
 	mergedCalls int
 	oneShots    int64
@@ -174,6 +177,7 @@ type Report struct {
 	Truncated    bool
 	ObservedByPt [][]string
 	OneShots     int64
+	CrossAgreed, CrossDisagreed, CrossUndecided int64
 	Winners      map[string]int
 }
 
@@ -256,6 +260,7 @@ func (x *Explorer) Run() *Report {
 	rep.IfConverted = atomic.LoadInt64(&x.ifConverted)
 	rep.Notes = x.notes
 	rep.OneShots, rep.Winners = x.Stats()
+	rep.CrossAgreed, rep.CrossDisagreed, rep.CrossUndecided = x.CrossStats()
 	rep.Wall = time.Since(start)
 	return rep
 }
@@ -401,6 +406,11 @@ func (rep *Report) TopFuncs(n int) []string {
 		out = append(out, fmt.Sprintf("%s:%d", l[i].k, l[i].v))
 	}
 	return out
+}
+
+// CrossStats: sampled incremental "unsat" answers re-decided one-shot: agreed, disagreed, undecided.
+func (x *Explorer) CrossStats() (int64, int64, int64) {
+	return atomic.LoadInt64(&x.crossAgreed), atomic.LoadInt64(&x.crossDisagreed), atomic.LoadInt64(&x.crossUndecided)
 }
 
 func (x *Explorer) countOneShot() { atomic.AddInt64(&x.oneShots, 1) }
